@@ -545,9 +545,29 @@ def main(ctx: Ctx) -> int:
     traces, meta = [], {}
     tid = 0
     malformed = 0
+    # every 7th generated network is rendered TWICE with the same loader objects: first without its last reaction, then -- after
+    # add_reaction on the SAME Network object -- complete; the second rendering is the one that is read back and judged
+    grown = {ci for ci, d in enumerate(descs) if ci % 7 == 3 and ci not in prebuilt and len(d["reactions"]) >= 2 and not d.get("rate_modifier")
+             and not d.get("ode_modifier") and not d.get("indices")}
+    for ci in grown:      # the reaction that is added later brings a NEW species whenever the network allows it (sizes change, not only terms)
+        rs = descs[ci]["reactions"]
+        for j, (r_, p_) in enumerate(rs):
+            others = {x for k2, (a_, b_) in enumerate(rs) if k2 != j for x in a_ + b_}
+            if set(r_ + p_) - others:
+                descs[ci] = dict(descs[ci], reactions=rs[:j] + rs[j + 1:] + [rs[j]])
+                break
+    cov["rendered_again_after_an_edit"] = len(grown)
     for ci, desc in enumerate(descs):
         try:
-            net = prebuilt.get(ci) or build_network(desc)
+            if ci in grown:
+                from naunet.reactions.reaction import Reaction
+                from naunet.reactiontype import ReactionType
+                net = build_network(dict(desc, reactions=desc["reactions"][:-1]))
+                observe(ctx, net, dict(desc, reactions=desc["reactions"][:-1]), 100000 + ci, with_pattern=False)
+                r_, p_ = desc["reactions"][-1]
+                net.add_reaction(Reaction(list(r_), list(p_), alpha=1.0e-10 * len(desc["reactions"]), reaction_type=ReactionType.GAS_TWOBODY))
+            else:
+                net = prebuilt.get(ci) or build_network(desc)
             obs = observe(ctx, net, desc, ci, with_pattern=(ci % 3 == 0))
         except Exception as e:   # noqa
             ctx.violation(f"{pid}|Render|{type(e).__name__}", f"rendering raised {type(e).__name__}: {e} for {desc.get('origin')} network "
@@ -580,6 +600,12 @@ def main(ctx: Ctx) -> int:
             if pid in ("C02", "C04"):
                 tid += 1
                 traces.append({"tid": tid, "net": tr["net"], "be": tag, "weights": tr["weights"], "ev": [observed], "names": tr["names"], "mode": "observe"})
+                meta[tid] = (ci, tag)
+            if pid == "C03":
+                # the structural facts on their own: a term-level mismatch earlier in the conformance trace must not hide them
+                tid += 1
+                traces.append({"tid": tid, "net": tr["net"], "be": tag, "weights": tr["weights"], "ev": [dict(tr["ev"][-1], k="Structure")], "names": tr["names"],
+                               "mode": "structure"})
                 meta[tid] = (ci, tag)
             cellsets[tag] = (sorted(map(tuple, tr["ev"][-1]["cells"])), tr)
             if pid == "C04" and tag == "dense":
